@@ -1,8 +1,55 @@
 import NetaddrVerif.Model.Proto
-/-! Driver ops of property C10 (stub: filled in by the property's model). -/
+import NetaddrVerif.Model.ListLike
+/-! Driver ops of property C10.
+  `ll_iter OBJ cap`        first `cap` items of `iter(OBJ)`, then `+` if more follow
+  `ll_len OBJ maxsize`     `size len` (`len` = `!index` when it does not fit)
+  `ll_index OBJ i`         `ver:val` or `!index`
+  `ll_slice OBJ a b c`     `[v,…]`, `!type` (IPv6), `!value` (zero step)
+  `iter_iprange A B step cap`   first `cap` items, then `+` if more follow; `!` for an error
+  OBJ = `N:ver:val:plen` | `R:ver:lo:hi` (IPRange and IPGlob) -/
 namespace NV.Driver.C10
-open NV NV.Proto
+open NV NV.Proto NV.ListLike
 
-def handle (_op : String) (_args : List String) : Option String := none
+def parseObj (tok : String) : Option Ranged :=
+  match parseNet tok with
+  | some n => some (ofNet n)
+  | none => (parseRng tok).map ofRng
+
+def optInt (tok : String) : Option (Option Int) :=
+  if tok == "-" then some none else (tok.toInt?).map some
+
+def showVals (l : List Addr) : String := showList (l.map (fun a => toString a.val))
+
+/-- items up to `cap`, plus a `+` marker when the generator had more -/
+def showCapped (cap : Nat) (r : R (List Addr)) (errTag : Err → String) : String :=
+  match r with
+  | .error e => errTag e
+  | .ok l => showVals (l.take cap) ++ (if l.length > cap then "+" else "")
+
+def handle (op : String) (args : List String) : Option String :=
+  match op, args with
+  | "ll_iter", [o, cap] => do
+    let x ← parseObj o; let cap ← cap.toNat?
+    pure (showCapped cap (iterF (cap + 1) x) showErr)
+  | "ll_len", [o, maxsize] => do
+    let x ← parseObj o; let m ← maxsize.toNat?
+    let l := match len m x with
+      | .ok n => toString n
+      | .error e => showErr e
+    pure (toString (size x) ++ " " ++ l)
+  | "ll_index", [o, i] => do
+    let x ← parseObj o; let i ← i.toInt?
+    pure (match getItemInt x i with
+      | .ok a => s!"{a.ver}:{a.val}"
+      | .error e => showErr e)
+  | "ll_slice", [o, a, b, c] => do
+    let x ← parseObj o; let a ← optInt a; let b ← optInt b; let c ← optInt c
+    pure (match getItemSlice x a b c with
+      | .ok l => showVals l
+      | .error e => showErr e)
+  | "iter_iprange", [a, b, step, cap] => do
+    let a ← parseAddr a; let b ← parseAddr b; let step ← step.toInt?; let cap ← cap.toNat?
+    pure (showCapped cap (iterIprangeF (cap + 1) a b step) (fun _ => "!"))
+  | _, _ => none
 
 end NV.Driver.C10
